@@ -199,7 +199,7 @@ func (in *Interp) call(st *State, call *ast.CallExpr) Val {
 			if ok4 && first != nil {
 				in.pendingRead = &Rec{Off: first.Off, W: Const(4), Kind: "bytes", Pos: call.Pos()}
 			}
-			v := in.newBuf(st, &BufObj{Origin: "fresh", Src: "net.IPv4", Len: Const(16), Pos: call.Pos()})
+			v := in.newBuf(st, &BufObj{Origin: "fresh", Src: "net.IPv4", Len: Const(16), Pos: call.Pos(), FromRead: in.pendingRead})
 			st.bufs[v.ID].Extent = Const(16)
 			return v
 		}
@@ -1073,7 +1073,27 @@ func (in *Interp) inlineClosure(st *State, cl ClosV, call *ast.CallExpr) Val {
 			i++
 		}
 	}
+	// captured variables are shared with the enclosing function: the body sees their current values
+	// (where the caller's frame still holds them) and its assignments to them survive the call
+	for k, v := range st.vars {
+		if _, isParam := env[k]; isParam && paramOfLit(owner.info, cl.Lit, k) {
+			continue
+		}
+		env[k] = v
+	}
+	sub.byRef = true
 	return sub.runBody(st, cl.Lit.Type, cl.Lit.Body, env, call.Pos())
+}
+
+func paramOfLit(info *types.Info, lit *ast.FuncLit, o types.Object) bool {
+	for _, fl := range lit.Type.Params.List {
+		for _, nm := range fl.Names {
+			if info.Defs[nm] == o {
+				return true
+			}
+		}
+	}
+	return false
 }
 
 // runBody executes a function body in the caller's state (shared heap) and
@@ -1112,6 +1132,13 @@ func (sub *Interp) runBody(st *State, ft *ast.FuncType, body *ast.BlockStmt, env
 		last := good[len(good)-1]
 		// the caller continues in the state of the last (fall-through) return
 		*st = *last.St
+		if sub.byRef {
+			for k, v := range last.St.vars {
+				if _, captured := saved[k]; captured {
+					saved[k] = v
+				}
+			}
+		}
 		switch len(last.Vals) {
 		case 0:
 		case 1:
